@@ -3,6 +3,7 @@
 Encoders on structured values; decoders on every length 0..BYTES+8 with: valid, leading/trailing zeros,
 FULL-LENGTH WITH EXCESS HIGH BITS (the whole-limb fast path at BYTES%8=0 with a non-trivial mask, and the
 accumulation path at BITS%8!=0), one byte too long, random; exhaustive byte strings at tiny widths."""
+import sys
 from vgen import *
 
 BIN = 'c08'
@@ -213,4 +214,12 @@ def gen(rng, tier):
 
 
 def extra_checks(tier, rng, findings):
-    return {'violations': [], 'known': {}, 'coverage': {'decoder_path_classes': dict(sorted(CLASSES.items()))}}
+    cov = {'decoder_path_classes': dict(sorted(CLASSES.items()))}
+    viol = []
+    if tier == 'thorough' or __import__('os').environ.get('VERIF_RELEASE_RERUN') == '1':
+        # the documented panics of the encoders (`BYTES` const parameter, buffer sizes) must not depend on debug assertions
+        import vlib
+        v, c = vlib.release_rerun(sys.modules[__name__], 'C08', rng)
+        viol += v
+        cov.update(c)
+    return {'violations': viol, 'known': {}, 'coverage': cov}
